@@ -1,6 +1,7 @@
 package exec
 
 import (
+	"go/types"
 	"math"
 	"strconv"
 
@@ -109,28 +110,48 @@ func (in *Interp) installStubs2() {
 	S["strconv.AppendInt"] = func(in *Interp, a []Value) Value {
 		t := a[1].(*smt.Term)
 		if !t.IsConst() {
-			abortf("unsupported: strconv.AppendInt of a symbolic value (contract stub not in spike)")
+			t = in.Ctx.Concretize(t)
+			in.StubHits["concretized: strconv.AppendInt of a symbolic int"]++
 		}
 		s := strconv.FormatInt(smt.Signed(t.Val, 64).Int64(), in.concInt(a[2], "base"))
-		cl := &Closure{Name: "builtin:append"}
-		_ = cl
-		dst := a[0].(SliceV)
-		// append bytes
-		for i := 0; i < len(s); i++ {
-			if dst.Len < dst.Cap {
-				dst.Arr.Cells[dst.Off+dst.Len] = st.BVConstI(int64(s[i]), 8)
-				dst.Len++
-			} else {
-				abortf("AppendInt: buffer growth not in spike")
-			}
-		}
-		return dst
+		return in.appendBytes(a[0].(SliceV), []byte(s))
 	}
 	S["strconv.Itoa"] = func(in *Interp, a []Value) Value {
 		t := a[0].(*smt.Term)
 		if !t.IsConst() {
-			abortf("unsupported: strconv.Itoa of a symbolic value")
+			t = in.Ctx.Concretize(t)
+			in.StubHits["concretized: strconv.Itoa of a symbolic int"]++
 		}
 		return Str{S: strconv.FormatInt(smt.Signed(t.Val, 64).Int64(), 10)}
 	}
+}
+
+// appendBytes appends concrete bytes to a byte slice with Go's append semantics.
+func (in *Interp) appendBytes(dst SliceV, b []byte) SliceV {
+	if len(b) == 0 {
+		return dst
+	}
+	if dst.Arr != nil && dst.Len+len(b) <= dst.Cap {
+		for i, c := range b {
+			if dst.Arr.Frozen {
+				in.sharedWrite("append in place", dst.Arr.Cells[dst.Off+dst.Len+i], in.St.BVConstI(int64(c), 8))
+			}
+			dst.Arr.Cells[dst.Off+dst.Len+i] = in.St.BVConstI(int64(c), 8)
+		}
+		dst.Len += len(b)
+		return dst
+	}
+	ncap := max(2*dst.Cap, dst.Len+len(b), 8)
+	arr := &Obj{Cells: make([]Value, ncap), T: types.Typ[types.Uint8]}
+	for i := 0; i < dst.Len; i++ {
+		arr.Cells[i] = dst.Arr.Cells[dst.Off+i]
+	}
+	for i, c := range b {
+		arr.Cells[dst.Len+i] = in.St.BVConstI(int64(c), 8)
+	}
+	z := in.St.BVConstI(0, 8)
+	for i := dst.Len + len(b); i < ncap; i++ {
+		arr.Cells[i] = z
+	}
+	return SliceV{arr, 0, dst.Len + len(b), ncap}
 }
